@@ -33,6 +33,8 @@ func runC14(p *Program, r *Report) {
 		r.Min(m.r, m.n)
 	}
 	checkRangeReentryAgreement(p, r, "C14.R6")
+	// the prefix an action after a template call is judged by comes from the memo of the called template
+	checkMemoOutput(p, r, "C14.R9")
 	checkJoinRecordsValueDisagreement(p, r, "C14.R8")
 	// ---- R1 tables -------------------------------------------------------------
 	t := checkURLProcEscapeMode(p, r, "C14.R1")
